@@ -44,6 +44,11 @@ CHECKS = {
   text="Every URI of the stated segment/separator/leading alphabet (exhaustive up to 4 segments quick, 6 thorough) is looked up on real TemplateLookup objects over a fixture tree with canary files at every place a traversal could land, directly and through include/inherit/namespace/Namespace-API calls from callers at depth 0..3; a sys.addaudithook file-access monitor, the realpath of every returned Template.filename and a canary scan of the output decide containment.",
   note="Trusted: os.path.realpath and the audit hook's coverage of open/mkdir/rename/remove/mkstemp/shutil events; symlinks and spellings outside the alphabet are not explored.",
   technique="audit-hook file-access monitor + containment oracle over exhaustively enumerated URIs"),
+ "C11": dict(
+  category="exploration", design_ref="DESIGN.md §2 C11",
+  text="Fault planting: generated well-formed documents under varied layouts (leading blank lines, CRLF, indentation, multi-line text, continuation lines, tabs) receive exactly one faulty construct of 25 classes (Python syntax errors in expression single/multi-line, control/elif line, a chosen line of a <% %> or <%! %> block, def signature, page args, filter list, attribute expression, <%call expr>; unterminated ${ / <%; unknown tag; closing tag without opening; mismatched closing tag; unterminated / mismatched / stray / illegal-continuation control keywords; duplicate block; named block in def; missing or illegal attribute; unclosed tag; invalid control line). The expected line comes from the emitter's own line counter and, inside Python code, from the line CPython itself reports for the same code; checked on every construction path (string, file, lookup, module directory): exception class, .lineno, .pos, .filename, .source, agreement of the four paths, RichTraceback().lineno/.source and the text error template.",
+  note="Trusted: the emitter's line/column counter and CPython's SyntaxError.lineno. Not asserted: column of an expression whose FILTER part is unterminated (pinned by test_unterminated_expression_filter). One open known finding (unclosed tag reported at end of template; pinned by test_unclosed_tag).",
+  technique="fault planting with an independent line/column counter over generated documents x 4 construction paths"),
  "C13": dict(
   category="fault_enumeration", design_ref="DESIGN.md §2 C13",
   text="Fault enumeration over generated documents (C05 grammar plus filtered blocks, <%text filter>, includes, an inherited base, loops with loop.index, cached defs, a raising filter and a raising decorator): EVERY node position is a raise point, one at a time (as a <% raise %> block, a raising call in an expression, a raising argument expression, inside the filter function, before/after the wrapped call in the decorator, inside a cached def's creation function), x EVERY enclosing handler position (% try around the raise point and around each ancestor in turn, include_error_handler, error_handler returning True, the caller of render_context, none). Oracles: the reference interpreter (abandoned buffers dropped, direct writes kept), the settrace render-state monitor on every template frame, identity (`is`) of the propagating exception object, a marker written through the same Context after a failed render_context plus the depths of its stacks, the format_exceptions page, and a second (disarmed) and third (re-armed) render of the same Template with cache state carried along.",
